@@ -1,22 +1,671 @@
 //go:build verifsim
 
+// Command verifsim (built as simrun) runs the simulation engines.
+//
+//	simrun check  -engine E -prop C13 -tier quick -seed 1 -workers 16 -runs N -seconds T -evidence f -known f -replays dir
+//	simrun worker -engine E ... (internal)
+//	simrun replay -file replay.json [-trace]
+//
+// Exit status: 0 property held on everything explored; 1 violation (a line
+// "VIOLATION property=<id> replay=<path>" per violation); 2 harness trouble.
 package main
 
 import (
+	"bufio"
+	"encoding/json"
+	"flag"
 	"fmt"
+	"os"
+	"os/exec"
+	"path/filepath"
+	"runtime"
+	"sort"
+	"strings"
+	"sync"
+	"time"
 
-	"github.com/juev/hledger-lsp/internal/include"
-	"github.com/juev/hledger-lsp/internal/verifsim/simfs"
+	"github.com/juev/hledger-lsp/internal/verifsim/engine"
+	"github.com/juev/hledger-lsp/internal/verifsim/simrt"
 )
 
+type runResult struct {
+	Idx         uint64              `json:"idx"`
+	Param       int                 `json:"param"`
+	Choices     []int               `json:"choices"`
+	Violations  []*engine.Violation `json:"violations"`
+	Fingerprint string              `json:"fingerprint"`
+	Sig         string              `json:"sig"`
+	NonTrivial  bool                `json:"nontrivial"`
+	Trace       []string            `json:"trace,omitempty"`
+	Steps       int                 `json:"steps"`
+	Overrun     int                 `json:"overrun"`
+}
+
+type opts struct {
+	tier  string
+	race  bool
+	known []engine.KnownFinding
+}
+
+func runOne(e engine.Engine, c *simrt.Chooser, param int, o opts, stats *engine.Stats, keep bool) *runResult {
+	log := simrt.NewLog(keep)
+	ctx := &engine.RunCtx{C: c, Log: log, Tier: o.tier, Race: o.race, Stats: stats, Known: o.known, KeepTrace: keep, Param: param}
+	func() {
+		defer func() {
+			if r := recover(); r != nil {
+				// a panic on the harness goroutine is harness trouble unless the
+				// engine converted it; report loudly.
+				buf := make([]byte, 1<<16)
+				n := runtime.Stack(buf, false)
+				fmt.Fprintf(os.Stderr, "HARNESS PANIC in engine %s: %v\n%s\n", e.Name(), r, buf[:n])
+				os.Exit(2)
+			}
+		}()
+		e.Run(ctx)
+	}()
+	res := &runResult{Param: param, Choices: append([]int(nil), c.Rec...), Violations: ctx.Violations,
+		Fingerprint: log.Fingerprint(), Sig: log.Signature() + ctx.SigExtra, NonTrivial: ctx.NonTrivial, Steps: log.N, Overrun: c.Overrun}
+	if keep {
+		res.Trace = ctx.Trace
+	}
+	return res
+}
+
 func main() {
-	d := simfs.NewDisk()
-	d.WriteFile("/sim/ws/main.journal", []byte("include a.journal\ninclude b.journal\n"))
-	d.WriteFile("/sim/ws/a.journal", []byte("include c.journal\n"))
-	d.WriteFile("/sim/ws/b.journal", []byte("include c.journal\n"))
-	d.WriteFile("/sim/ws/c.journal", []byte("2024-01-01 x\n  a:b  1 USD\n  c:d\n"))
-	simfs.Active = d
-	l := include.NewLoader()
-	r, errs := l.Load("/sim/ws/main.journal")
-	fmt.Println(r.FileOrder, errs)
+	if len(os.Args) < 2 {
+		fmt.Fprintln(os.Stderr, "usage: simrun check|worker|replay ...")
+		os.Exit(2)
+	}
+	switch os.Args[1] {
+	case "check":
+		os.Exit(cmdCheck(os.Args[2:]))
+	case "worker":
+		os.Exit(cmdWorker(os.Args[2:]))
+	case "replay":
+		os.Exit(cmdReplay(os.Args[2:]))
+	case "engines":
+		fmt.Println(strings.Join(engine.Names(), "\n"))
+	default:
+		fmt.Fprintln(os.Stderr, "unknown mode", os.Args[1])
+		os.Exit(2)
+	}
+}
+
+// ---- worker -------------------------------------------------------------------
+
+type workerOut struct {
+	Fail  *runResult    `json:"fail,omitempty"`
+	Stats *engine.Stats `json:"stats,omitempty"`
+	Runs  int64         `json:"runs,omitempty"`
+	Enum  int64         `json:"enum,omitempty"`
+}
+
+func cmdWorker(args []string) int {
+	fs := flag.NewFlagSet("worker", flag.ExitOnError)
+	eng := fs.String("engine", "", "")
+	tier := fs.String("tier", "quick", "")
+	seed := fs.Uint64("seed", 1, "")
+	from := fs.Uint64("from", 0, "first run index")
+	step := fs.Uint64("step", 1, "index stride")
+	runs := fs.Uint64("runs", 100, "max runs for this worker")
+	seconds := fs.Float64("seconds", 60, "wall budget")
+	known := fs.String("known", "", "")
+	enumFrom := fs.Int("enum-from", 0, "")
+	enumStep := fs.Int("enum-step", 1, "")
+	enumN := fs.Int("enum-n", 0, "")
+	maxFail := fs.Int("maxfail", 40, "")
+	fs.Parse(args)
+	e := engine.Get(*eng)
+	if e == nil {
+		fmt.Fprintln(os.Stderr, "no such engine", *eng)
+		return 2
+	}
+	o := opts{tier: *tier, race: simrt.RaceBuild, known: engine.LoadKnown(*known)}
+	stats := engine.NewStats()
+	out := json.NewEncoder(os.Stdout)
+	deadline := time.Now().Add(time.Duration(*seconds * float64(time.Second)))
+	fails := 0
+	var nruns, nenum int64
+	emit := func(res *runResult, idx uint64) {
+		if res.NonTrivial {
+			stats.Sigs[hash(res.Sig)] = struct{}{}
+		}
+		if len(res.Violations) > 0 && fails < *maxFail {
+			fails++
+			res.Idx = idx
+			out.Encode(workerOut{Fail: res})
+		}
+	}
+	for p := *enumFrom; p < *enumN; p += *enumStep {
+		c := simrt.NewSearchChooser(*seed, uint64(1<<40)+uint64(p))
+		res := runOne(e, c, p, o, stats, false)
+		nenum++
+		emit(res, uint64(1<<40)+uint64(p))
+	}
+	// sample collection: keep traces for a few runs
+	var sampleRuns []uint64
+	for i := uint64(0); i < *runs; i++ {
+		if i%64 == 0 && time.Now().After(deadline) {
+			break
+		}
+		idx := *from + i**step
+		c := simrt.NewSearchChooser(*seed, idx)
+		res := runOne(e, c, -1, o, stats, false)
+		nruns++
+		emit(res, idx)
+		if res.NonTrivial && len(sampleRuns) < 3 && *from == 0 {
+			sampleRuns = append(sampleRuns, idx)
+		}
+	}
+	for _, idx := range sampleRuns {
+		c := simrt.NewSearchChooser(*seed, idx)
+		scratch := engine.NewStats()
+		res := runOne(e, c, -1, o, scratch, true)
+		stats.Samples = append(stats.Samples, engine.Sample{Kind: "seeded", Run: idx, Steps: res.Steps, Trace: res.Trace})
+	}
+	stats.Flatten()
+	out.Encode(workerOut{Stats: stats, Runs: nruns, Enum: nenum})
+	return 0
+}
+
+func hash(s string) uint64 {
+	h := uint64(1469598103934665603)
+	for i := 0; i < len(s); i++ {
+		h ^= uint64(s[i])
+		h *= 1099511628211
+	}
+	return h
+}
+
+// ---- replay --------------------------------------------------------------------
+
+type replayFile struct {
+	Property    string         `json:"property"`
+	Engine      string         `json:"engine"`
+	Oracle      string         `json:"oracle"`
+	Class       string         `json:"class"`
+	Msg         string         `json:"msg"`
+	Witness     map[string]any `json:"witness,omitempty"`
+	Seed        uint64         `json:"seed"`
+	Run         uint64         `json:"run"`
+	Param       int            `json:"param"`
+	Tier        string         `json:"tier"`
+	Race        bool           `json:"race_build"`
+	Choices     []int          `json:"choices"`
+	Fingerprint string         `json:"fingerprint"`
+	Trace       []string       `json:"trace"`
+	RepoHead    string         `json:"repo_head,omitempty"`
+	OrigChoices int            `json:"original_choice_count"`
+}
+
+func cmdReplay(args []string) int {
+	fs := flag.NewFlagSet("replay", flag.ExitOnError)
+	file := fs.String("file", "", "")
+	trace := fs.Bool("trace", false, "print the event log")
+	known := fs.String("known", "", "")
+	quiet := fs.Bool("json", false, "print a JSON result only")
+	fs.Parse(args)
+	b, err := os.ReadFile(*file)
+	if err != nil {
+		fmt.Fprintln(os.Stderr, err)
+		return 2
+	}
+	var rf replayFile
+	if err := json.Unmarshal(b, &rf); err != nil {
+		fmt.Fprintln(os.Stderr, "replay file:", err)
+		return 2
+	}
+	e := engine.Get(rf.Engine)
+	if e == nil {
+		fmt.Fprintln(os.Stderr, "no such engine", rf.Engine)
+		return 2
+	}
+	o := opts{tier: rf.Tier, race: simrt.RaceBuild, known: engine.LoadKnown(*known)}
+	c := simrt.NewReplayChooser(rf.Choices)
+	res := runOne(e, c, rf.Param, o, engine.NewStats(), true)
+	same := false
+	for _, v := range res.Violations {
+		if v.Property == rf.Property && v.Oracle == rf.Oracle && v.Class == rf.Class {
+			same = true
+		}
+	}
+	if *quiet {
+		json.NewEncoder(os.Stdout).Encode(map[string]any{"same": same, "fingerprint": res.Fingerprint, "violations": res.Violations})
+	} else {
+		for _, l := range res.Trace {
+			fmt.Println("  " + l)
+		}
+		if *trace {
+			fmt.Println("fingerprint", res.Fingerprint)
+		}
+		for _, v := range res.Violations {
+			fmt.Printf("violation %s: %s\n", v.Key(), v.Msg)
+		}
+	}
+	if same {
+		if !*quiet {
+			fmt.Printf("VIOLATION property=%s replay=%s\n", rf.Property, *file)
+		}
+		if rf.Fingerprint != "" && rf.Fingerprint != res.Fingerprint && !*quiet {
+			fmt.Printf("note: event-log fingerprint differs from the recorded one (%s vs %s): the tree changed since the replay file was written\n", res.Fingerprint, rf.Fingerprint)
+		}
+		return 1
+	}
+	if !*quiet {
+		fmt.Println("replay did not reproduce the recorded violation on this tree")
+	}
+	return 0
+}
+
+// ---- check ----------------------------------------------------------------------
+
+func cmdCheck(args []string) int {
+	fs := flag.NewFlagSet("check", flag.ExitOnError)
+	eng := fs.String("engine", "", "")
+	prop := fs.String("prop", "", "")
+	tier := fs.String("tier", "quick", "")
+	seed := fs.Uint64("seed", 1, "")
+	workers := fs.Int("workers", runtime.NumCPU(), "")
+	runs := fs.Uint64("runs", 2000, "total seeded runs")
+	seconds := fs.Float64("seconds", 60, "wall budget for the search phase")
+	evidence := fs.String("evidence", "", "")
+	known := fs.String("known", "", "")
+	replays := fs.String("replays", "", "directory for replay files")
+	level := fs.String("level", "exploration", "")
+	raceBin := fs.String("racebin", "", "second binary built with -race")
+	raceRuns := fs.Uint64("raceruns", 0, "")
+	raceSeconds := fs.Float64("raceseconds", 0, "")
+	repoHead := fs.String("repohead", "", "")
+	instrReport := fs.String("instr", "", "instrument_report.json")
+	fs.Parse(args)
+	start := time.Now()
+	e := engine.Get(*eng)
+	if e == nil {
+		fmt.Fprintln(os.Stderr, "no such engine:", *eng, "have:", engine.Names())
+		return 2
+	}
+	self, _ := os.Executable()
+	kf := engine.LoadKnown(*known)
+
+	total := engine.NewStats()
+	var fails []*runResult
+	var nruns, nenum int64
+	var mu sync.Mutex
+	var wg sync.WaitGroup
+	trouble := false
+	launch := func(bin string, w, nw int, runs uint64, secs float64, enumN int, tag string) {
+		defer wg.Done()
+		per := (runs + uint64(nw) - 1) / uint64(nw)
+		a := []string{"worker", "-engine", *eng, "-tier", *tier, "-seed", fmt.Sprint(*seed), "-from", fmt.Sprint(w), "-step", fmt.Sprint(nw),
+			"-runs", fmt.Sprint(per), "-seconds", fmt.Sprint(secs), "-known", *known,
+			"-enum-from", fmt.Sprint(w), "-enum-step", fmt.Sprint(nw), "-enum-n", fmt.Sprint(enumN)}
+		cmd := exec.Command(bin, a...)
+		cmd.Stderr = os.Stderr
+		cmd.Env = append(os.Environ(), "GORACE=halt_on_error=1 exitcode=66")
+		stdout, _ := cmd.StdoutPipe()
+		if err := cmd.Start(); err != nil {
+			fmt.Fprintln(os.Stderr, "worker start:", err)
+			mu.Lock()
+			trouble = true
+			mu.Unlock()
+			return
+		}
+		sc := bufio.NewScanner(stdout)
+		sc.Buffer(make([]byte, 1<<20), 1<<30)
+		for sc.Scan() {
+			var wo workerOut
+			if err := json.Unmarshal(sc.Bytes(), &wo); err != nil {
+				continue
+			}
+			mu.Lock()
+			if wo.Fail != nil {
+				fails = append(fails, wo.Fail)
+			}
+			if wo.Stats != nil {
+				if tag != "" {
+					pref := engine.NewStats()
+					for k, v := range wo.Stats.Counters {
+						pref.Counters[tag+k] = v
+					}
+					pref.SigList = wo.Stats.SigList
+					total.Merge(pref)
+					total.Counters[tag+"runs"] += wo.Runs
+				} else {
+					total.Merge(wo.Stats)
+					nruns += wo.Runs
+					nenum += wo.Enum
+				}
+			}
+			mu.Unlock()
+		}
+		if err := cmd.Wait(); err != nil {
+			fmt.Fprintf(os.Stderr, "worker %d (%s) exited: %v\n", w, filepath.Base(bin), err)
+			mu.Lock()
+			trouble = true
+			mu.Unlock()
+		}
+	}
+	enumN := e.Enumerated(*tier)
+	for w := 0; w < *workers; w++ {
+		wg.Add(1)
+		go launch(self, w, *workers, *runs, *seconds, enumN, "")
+	}
+	wg.Wait()
+	if *raceBin != "" && *raceRuns > 0 {
+		for w := 0; w < *workers; w++ {
+			wg.Add(1)
+			go launch(*raceBin, w, *workers, *raceRuns, *raceSeconds, 0, "race:")
+		}
+		wg.Wait()
+	}
+	if trouble {
+		fmt.Fprintln(os.Stderr, "harness trouble: a worker failed (see above)")
+		return 2
+	}
+	searchWall := time.Since(start).Seconds()
+
+	// ---- triage failures: one representative per violation key
+	byKey := map[string]*runResult{}
+	for _, f := range fails {
+		for _, v := range f.Violations {
+			k := v.Key()
+			if old, ok := byKey[k]; !ok || len(f.Choices) < len(old.Choices) {
+				byKey[k] = f
+			}
+		}
+	}
+	keys := make([]string, 0, len(byKey))
+	for k := range byKey {
+		keys = append(keys, k)
+	}
+	sort.Strings(keys)
+	o := opts{tier: *tier, race: false, known: kf}
+	nviol := 0
+	var reports []map[string]any
+	for _, k := range keys {
+		f := byKey[k]
+		var v0 *engine.Violation
+		for _, v := range f.Violations {
+			if v.Key() == k {
+				v0 = v
+			}
+		}
+		if strings.HasPrefix(v0.Oracle, "race") {
+			// found by the -race binary: cannot be re-executed in this binary;
+			// report with the unshrunk choice list, confirmed by the race binary.
+			path := writeReplay(*replays, *prop, *eng, v0, *seed, f, f.Choices, nil, *tier, true, *repoHead, "")
+			fmt.Printf("VIOLATION property=%s replay=%s\n", *prop, path)
+			fmt.Printf("  %s: %s\n", k, v0.Msg)
+			nviol++
+			continue
+		}
+		pred := func(choices []int) (*runResult, bool) {
+			c := simrt.NewReplayChooser(choices)
+			r := runOne(e, c, f.Param, o, engine.NewStats(), false)
+			for _, v := range r.Violations {
+				if v.Key() == k {
+					return r, true
+				}
+			}
+			return r, false
+		}
+		if _, ok := pred(f.Choices); !ok {
+			fmt.Fprintf(os.Stderr, "harness trouble: failure %s of run %d does not reproduce in-process from its own choice list\n", k, f.Idx)
+			return 2
+		}
+		min := shrink(f.Choices, pred, 4000)
+		c := simrt.NewReplayChooser(min)
+		final := runOne(e, c, f.Param, o, engine.NewStats(), true)
+		var fv *engine.Violation
+		for _, v := range final.Violations {
+			if v.Key() == k {
+				fv = v
+			}
+		}
+		if fv == nil {
+			fmt.Fprintf(os.Stderr, "harness trouble: minimised list for %s does not reproduce\n", k)
+			return 2
+		}
+		path := writeReplay(*replays, *prop, *eng, fv, *seed, f, min, final.Trace, *tier, false, *repoHead, final.Fingerprint)
+		// confirm twice in fresh processes
+		okc := 0
+		for i := 0; i < 2; i++ {
+			out, _ := exec.Command(self, "replay", "-file", path, "-json", "-known", *known).Output()
+			var r struct {
+				Same        bool   `json:"same"`
+				Fingerprint string `json:"fingerprint"`
+			}
+			json.Unmarshal(out, &r)
+			if r.Same && r.Fingerprint == final.Fingerprint {
+				okc++
+			}
+		}
+		if okc != 2 {
+			fl := filepath.Join(*replays, "_flaky")
+			os.MkdirAll(fl, 0o755)
+			os.Rename(path, filepath.Join(fl, filepath.Base(path)))
+			fmt.Fprintf(os.Stderr, "harness trouble: minimised replay of %s is not reproducible in a fresh process (%d/2); kept under %s\n", k, okc, fl)
+			return 2
+		}
+		fmt.Printf("VIOLATION property=%s replay=%s\n", fv.Property, path)
+		fmt.Printf("  %s: %s\n", k, fv.Msg)
+		for _, l := range final.Trace {
+			fmt.Println("    " + l)
+		}
+		nviol++
+		reports = append(reports, map[string]any{"key": k, "msg": fv.Msg, "replay": path, "choices": len(min), "original_choices": len(f.Choices)})
+	}
+
+	// ---- known findings hit
+	var knownHit []string
+	for _, k := range kf {
+		if k.Status == "open" && k.Property == *prop && total.Counters["known:"+k.ID] > 0 {
+			fmt.Printf("KNOWN-FINDING: property=%s %s (%s; hit %d times)\n", k.Property, k.What, k.ID, total.Counters["known:"+k.ID])
+			knownHit = append(knownHit, k.ID)
+		}
+	}
+
+	// ---- evidence
+	wall := time.Since(start).Seconds()
+	real, stub := e.Components()
+	counters := map[string]int64{}
+	faults := map[string]int64{}
+	probes := map[string]int64{}
+	for k, v := range total.Counters {
+		switch {
+		case strings.HasPrefix(k, "fault:"):
+			faults[strings.TrimPrefix(k, "fault:")] = v
+		case strings.HasPrefix(k, "probe:"):
+			probes[strings.TrimPrefix(k, "probe:")] = v
+		default:
+			counters[k] = v
+		}
+	}
+	samples := []any{}
+	sort.Slice(total.Samples, func(i, j int) bool { return total.Samples[i].Run < total.Samples[j].Run })
+	for i, s := range total.Samples {
+		if i >= 3 {
+			break
+		}
+		samples = append(samples, s)
+	}
+	if len(samples) == 0 {
+		samples = append(samples, "no non-trivial run sampled")
+	}
+	var instr any
+	if *instrReport != "" {
+		if b, err := os.ReadFile(*instrReport); err == nil {
+			var m map[string]any
+			json.Unmarshal(b, &m)
+			delete(m, "map_range_sites")
+			delete(m, "notes")
+			instr = m
+		}
+	}
+	ev := map[string]any{
+		"property_id": *prop,
+		"tier":        *tier,
+		"seed":        *seed,
+		"level":       *level,
+		"wall_s":      wall,
+		"violations":  nviol,
+		"coverage": map[string]any{
+			"evaluations":         nruns + nenum + total.Counters["race:runs"],
+			"distinct_nontrivial": len(total.Sigs),
+			"rule":                e.Rule(),
+			"samples":             samples,
+			"engine":              e.Name(),
+			"seeded_runs":         nruns,
+			"enumerated_runs":     nenum,
+			"race_detector_runs":  total.Counters["race:runs"],
+			"run_index_range":     []uint64{0, *runs},
+			"runs_per_hour":       int64(float64(nruns+nenum) / searchWall * 3600),
+			"distinct_states":     len(total.States),
+			"faults_fired":        faults,
+			"reach_probes":        probes,
+			"counters":            counters,
+			"known_findings_hit":  knownHit,
+			"violation_reports":   reports,
+			"real_components":     real,
+			"stub_components":     stub,
+			"instrumentation":     instr,
+			"workers":             *workers,
+			"exhaustive":          false,
+		},
+		"assumptions": []string{
+			"seeded search over schedules, faults and histories: a clean batch is evidence, not proof",
+			"preemption only at simulator yield points (locks, sync.Map, disk/clock/exec calls, client calls, task start/end); plain memory races are left to the -race pass where one is run",
+			"the instrumented scratch copy behaves like /repo apart from the rewritten seams (go statements, sync types, map range order, os/filepath/time/exec calls)",
+		},
+	}
+	if *evidence != "" {
+		b, _ := json.MarshalIndent(ev, "", " ")
+		os.MkdirAll(filepath.Dir(*evidence), 0o755)
+		if err := os.WriteFile(*evidence, b, 0o644); err != nil {
+			fmt.Fprintln(os.Stderr, "evidence:", err)
+			return 2
+		}
+	}
+	fmt.Printf("%s/%s %s: %d seeded + %d enumerated runs (+%d under -race) in %.1fs, %d distinct non-trivial signatures, %d states, %d violation(s), known findings hit: %v\n",
+		*prop, *eng, *tier, nruns, nenum, total.Counters["race:runs"], wall, len(total.Sigs), len(total.States), nviol, knownHit)
+	if nviol > 0 {
+		return 1
+	}
+	return 0
+}
+
+func writeReplay(dir, prop, eng string, v *engine.Violation, seed uint64, f *runResult, choices []int, trace []string, tier string, race bool, head, fp string) string {
+	if dir == "" {
+		dir = "replays"
+	}
+	d := filepath.Join(dir, prop)
+	os.MkdirAll(d, 0o755)
+	name := fmt.Sprintf("%s-%s-%d-%d.json", sanitize(v.Oracle), sanitize(v.Class), seed, f.Idx)
+	path := filepath.Join(d, name)
+	rf := replayFile{Property: v.Property, Engine: eng, Oracle: v.Oracle, Class: v.Class, Msg: v.Msg, Witness: v.Witness, Seed: seed, Run: f.Idx, Param: f.Param,
+		Tier: tier, Race: race, Choices: choices, Fingerprint: fp, Trace: trace, RepoHead: head, OrigChoices: len(f.Choices)}
+	b, _ := json.MarshalIndent(rf, "", " ")
+	os.WriteFile(path, b, 0o644)
+	return path
+}
+
+func sanitize(s string) string {
+	var b strings.Builder
+	for _, r := range s {
+		if r >= 'a' && r <= 'z' || r >= 'A' && r <= 'Z' || r >= '0' && r <= '9' || r == '-' || r == '_' {
+			b.WriteRune(r)
+		} else {
+			b.WriteByte('_')
+		}
+	}
+	out := b.String()
+	if len(out) > 40 {
+		out = out[:40]
+	}
+	return out
+}
+
+// shrink minimises a choice list while pred keeps holding (Hypothesis-style
+// passes: delete blocks, zero blocks, lower single values).
+func shrink(choices []int, pred func([]int) (*runResult, bool), budget int) []int {
+	cur := append([]int(nil), choices...)
+	// first: truncate to what the failing run actually consumed
+	if r, ok := pred(cur); ok && len(r.Choices) < len(cur) {
+		cur = append([]int(nil), r.Choices...)
+	}
+	tries := 0
+	try := func(cand []int) bool {
+		if tries >= budget {
+			return false
+		}
+		tries++
+		r, ok := pred(cand)
+		if ok {
+			// adopt the choices actually consumed (drops the unused tail, and
+			// normalises out-of-range values to what was used)
+			cur = append([]int(nil), r.Choices...)
+			return true
+		}
+		return false
+	}
+	improved := true
+	for improved && tries < budget {
+		improved = false
+		// delete blocks
+		for _, bs := range []int{16, 8, 4, 2, 1} {
+			for i := 0; i+bs <= len(cur); {
+				cand := append(append([]int(nil), cur[:i]...), cur[i+bs:]...)
+				if try(cand) {
+					improved = true
+				} else {
+					i += bs
+				}
+				if tries >= budget {
+					break
+				}
+			}
+		}
+		// zero blocks
+		for _, bs := range []int{8, 4, 2, 1} {
+			for i := 0; i+bs <= len(cur); i += bs {
+				allZero := true
+				for j := i; j < i+bs; j++ {
+					if cur[j] != 0 {
+						allZero = false
+					}
+				}
+				if allZero {
+					continue
+				}
+				cand := append([]int(nil), cur...)
+				for j := i; j < i+bs; j++ {
+					cand[j] = 0
+				}
+				if try(cand) {
+					improved = true
+				}
+			}
+		}
+		// lower single values
+		for i := 0; i < len(cur); i++ {
+			for i < len(cur) && cur[i] > 0 && tries < budget {
+				cand := append([]int(nil), cur...)
+				cand[i] = cur[i] / 2
+				if try(cand) {
+					improved = true
+					continue
+				}
+				if cur[i] > 1 {
+					cand = append([]int(nil), cur...)
+					cand[i] = cur[i] - 1
+					if try(cand) {
+						improved = true
+						continue
+					}
+				}
+				break
+			}
+		}
+	}
+	return cur
 }
